@@ -146,7 +146,7 @@ func permutations(n int) [][]int {
 }
 
 var conflictKinds = []string{"dup_object", "dup_interface", "dup_union", "dup_enum", "dup_input", "overlap_boundary_field", "overlap_namespace_field",
-	"kind_collision", "kind_collision_scalar", "namespace_key_one_side", "boundary_vs_plain", "namespace_vs_boundary", "both_flags_one_side", "query_namespace_one_side", "overlap_root_id_field", "overlap_namespace_id_field"}
+	"kind_collision", "kind_collision_scalar", "namespace_key_one_side", "boundary_vs_plain", "namespace_vs_boundary", "both_flags_one_side", "query_namespace_one_side", "overlap_root_id_field", "overlap_namespace_id_field", "dup_non_object_named_mutation"}
 
 // injectConflict appends one conflicting definition to two service SDLs. Returns false if the kind does not apply.
 func injectConflict(r *rand.Rand, fed *federation, kind string) bool {
@@ -242,6 +242,16 @@ func injectConflict(r *rand.Rand, fed *federation, kind string) bool {
 			return false
 		}
 		a.SDL = strings.Replace(a.SDL, "type Query {", "type Query @namespace {", 1)
+	case "dup_non_object_named_mutation":
+		// a non-object definition under a root type's name, in two services that have no such root type: a duplicate
+		// like any other (and never an object to merge field by field)
+		if strings.Contains(a.SDL, "type Mutation") || strings.Contains(b.SDL, "type Mutation") {
+			return false
+		}
+		def := []string{"enum Mutation { P Q }", "input Mutation { x: String }", "interface Mutation { x: String }",
+			"type MutM { x: String }\nunion Mutation = MutM"}[r.Intn(4)]
+		addTo(a, def)
+		addTo(b, strings.Replace(def, "MutM", "MutM2", -1))
 	case "overlap_root_id_field":
 		// a field shaped like an entity key (id: ID!, no arguments) on a type that has no key: still one field, two owners
 		if !strings.Contains(a.SDL, "type Query {") || !strings.Contains(b.SDL, "type Query {") {
@@ -266,7 +276,7 @@ func injectConflict(r *rand.Rand, fed *federation, kind string) bool {
 func runMerge(cfg runCfg, pid string) error {
 	r := rand.New(rand.NewSource(cfg.seed))
 	sum := &summary{Property: pid, Seed: cfg.seed, Features: map[string]int{}, CaseInputs: map[string]interface{}{},
-		Rule: "random federation (1-4 services; boundary types shared by random subsets with single/array lookups or, for a third of the federations, some services in the former Node syntax, plain types, an interface and a union with boundary and plain members, enums with deprecated values, inputs with defaults, a custom scalar declared by several services, nested namespaces, arguments with defaults, descriptions, Mutation) split into service schemas; every one of the n! merge orders through MergeSchemas; tables after UpdateSchema with two forced poll-completion orders; 35% of cases carry ONE injected conflict (16 kinds); non-trivial = >= 2 services and >= 1 shared type, or an injected conflict"}
+		Rule: "random federation (1-4 services; boundary types shared by random subsets with single/array lookups or, for a third of the federations, some services in the former Node syntax, plain types, an interface and a union with boundary and plain members, enums with deprecated values, inputs with defaults, a custom scalar declared by several services, nested namespaces, arguments with defaults, descriptions, Mutation) split into service schemas; every one of the n! merge orders through MergeSchemas; tables after UpdateSchema with two forced poll-completion orders; 35% of cases carry ONE injected conflict (17 kinds, taken in turn); non-trivial = >= 2 services and >= 1 shared type, or an injected conflict"}
 	w := &caseWriter{dir: cfg.out, shard: 25, check: "check_merge_case", imports: "From V Require Import Base.Util Gql.Ast Model.Merge Corr.MergeCheck."}
 	distinct, goOnly := 0, 0
 	for ci := 0; ci < cfg.n; ci++ {
@@ -290,8 +300,9 @@ func runMerge(cfg runCfg, pid string) error {
 			}
 		}
 		conflict := ""
-		if r.Intn(100) < 35 && len(fed.Services) >= 2 {
-			k := conflictKinds[r.Intn(len(conflictKinds))]
+		if r.Intn(100) < 40 && len(fed.Services) >= 2 {
+			// every kind in turn; one that does not apply to this federation leaves the case without a conflict
+			k := conflictKinds[ci%len(conflictKinds)]
 			if injectConflict(r, fed, k) {
 				conflict = k
 			}
@@ -560,6 +571,32 @@ func derivedRelationsOK(m *ast.Schema) (bool, string) {
 		if m.Types[tn].IsAbstractType() {
 			if got := names(m.PossibleTypes[tn]); !same(got, wantPoss[tn]) {
 				return false, fmt.Sprintf("PossibleTypes[%s] = %v, the definitions imply %v", tn, sortedKeys(got), sortedKeys(wantPoss[tn]))
+			}
+		}
+	}
+	// the definitions these relations point at are the public ones: same fields as Types[name] (a member recorded from one
+	// service's own declaration would lack the other services' fields and still carry the plumbing)
+	fieldNames := func(d *ast.Definition) string {
+		var fs []string
+		for _, f := range d.Fields {
+			fs = append(fs, f.Name)
+		}
+		sort.Strings(fs)
+		return strings.Join(fs, ",")
+	}
+	for _, rel := range []map[string][]*ast.Definition{m.PossibleTypes, m.Implements} {
+		for _, tn := range sortedKeys(rel) {
+			if strings.HasPrefix(tn, "__") {
+				continue
+			}
+			for _, d := range rel[tn] {
+				pub := m.Types[d.Name]
+				if pub == nil {
+					return false, fmt.Sprintf("a relation of %s names %s, which is not a type of the schema", tn, d.Name)
+				}
+				if fieldNames(d) != fieldNames(pub) || len(d.Directives) != len(pub.Directives) {
+					return false, fmt.Sprintf("the definition of %s recorded under %s has fields {%s}, the public type has {%s}", d.Name, tn, fieldNames(d), fieldNames(pub))
+				}
 			}
 		}
 	}
